@@ -165,6 +165,26 @@ func c19Build(c *Ctx, h *c19Hist) (d *c19DB, skip string) {
 			return nil, "history-call-failed" // C01/C09 territory
 		}
 	}
+	// a third of the histories end quietly: 1-3 rounds of Close/Open with at most two small writes in between.  An
+	// Open that flushes the replayed journal and idle reopens leave a journal whose number lies ABOVE every table
+	// number (by 2, 3, ...), which Recover has to reserve although it rebuilds the counter from the tables.
+	if r.Chance(1, 3) {
+		rounds := 1 + r.Intn(3)
+		for q := 0; q < rounds; q++ {
+			if err, hung := crCall(crWdTimeout, db.Close); err != nil || hung || !open() {
+				return nil, "reopen-failed"
+			}
+			d.stats["quiet-reopen"]++
+			for w := r.Intn(3); w > 0; w-- {
+				k, v := gen.KeyFrom(r, univ), val()
+				if err, hung := crCall(crWdTimeout, func() error { return db.Put(k, v, nil) }); err != nil || hung {
+					go db.Close()
+					return nil, "history-call-failed"
+				}
+				apply([][3][]byte{{k, v, nil}})
+			}
+		}
+	}
 	// (reads can trigger seek compactions, so the comparison with the plain map comes before settling)
 	got, err := crDumpDB(db)
 	if err != nil || len(got) != len(d.m) {
